@@ -162,10 +162,18 @@ def check_case(case):
     H.reset_state()
     buf = io.StringIO()
     mig = getattr(cli, "_migrate_csv_to_rules", None)
+    ok = None
     if mig is not None:
-        with contextlib.redirect_stdout(buf):
-            ok = mig(csv_path, cfg, backup=True)
-    else:
+        try:
+            with contextlib.redirect_stdout(buf):
+                ok = mig(csv_path, cfg, backup=True)
+        except TypeError:
+            # a private helper may change its signature at any time: fall through to the user-level route
+            ok = None
+            for leftover in ("merchants.rules",):
+                if os.path.exists(os.path.join(cfg, leftover)):
+                    os.remove(os.path.join(cfg, leftover))
+    if ok is None:
         # the helper is private; if a refactor moved it, run the migration the way a user does
         from mc.core import proc
         r = proc.run_cli(["up", "--migrate", "--summary"], cwd=base)
